@@ -59,6 +59,20 @@ def run(ctx):
         rows.append((par["S_or"] * 0.5, 1 - par["S_or"] * 0.5 - par["S_gc"] * 0.5, par["S_gc"] * 0.5))
         rows.append((par["S_or"], par["S_wc"], 1 - par["S_or"] - par["S_wc"]))
         rows.append((0.3, 0.3, 0.4 + 5e-4))
+        if k % 4 == 1:
+            # a table whose columns have different dtypes (DataFrame({"So": 0, "Sw": sw, "Sg": 1 - sw}).to_records(): the constant
+            # column is integer): vertices of the saturation triangle with whole-number entries, each field with its own dtype
+            mixed = np.zeros(3, dtype=[("So", np.int64), ("Sw", np.float64), ("Sg", np.float32)])
+            mixed["So"], mixed["Sw"], mixed["Sg"] = [0, 1, 0], [1.0, 0.0, 0.0], [0.0, 0.0, 1.0]
+            try:
+                krm = relative_permeabilities(mixed, P)
+                for (so_, sw_, sg_), rec_ in zip(((0, 1.0, 0.0), (1, 0.0, 0.0), (0, 0.0, 1.0)), krm):
+                    want_m = (par["k_ro_max"] if so_ == 1 else 0.0, par["k_rw_max"] if sw_ == 1 else 0.0, par["k_rg_max"] if sg_ == 1 else 0.0)
+                    got_m = (float(rec_["kro"]), float(rec_["krw"]), float(rec_["krg"]))
+                    if not np.allclose(got_m, want_m, rtol=1e-6, atol=0):
+                        bad("relative permeabilities of a single-phase saturation record (fields of different dtypes) are not (k_max of that phase, 0, 0)", dict(params=par, saturation=dict(So=so_, Sw=sw_, Sg=sg_), field_dtypes="int64, float64, float32"), list(got_m))
+            except Exception as e:  # noqa: BLE001
+                bad("an admissible parameter set / saturation record is rejected", dict(params=par, saturations="vertices of the saturation triangle", field_dtypes="So int64, Sw float64, Sg float32"), repr(e)[:200])
         try:
             kr = relative_permeabilities(sat_records(rows, ORDERS[k % len(ORDERS)]), P)
         except Exception as e:  # noqa: BLE001
